@@ -20,3 +20,29 @@ mod verif_dump {
 pub fn verif_proto_init_stub() -> Smack {
     crate::smack::verif_tables::proto_smack()
 }
+
+// Native replay of a z3 witness for C10: runs the REAL matcher of this tree on the payload.
+#[cfg(test)]
+mod verif_c10_replay {
+    use super::*;
+    #[test]
+    fn verif_c10_replay() {
+        let hex = match std::env::var("VERIF_C10_WITNESS") {
+            Ok(h) => h,
+            Err(_) => return,
+        };
+        let datagram = std::env::var("VERIF_C10_MODE").map(|m| m == "datagram").unwrap_or(false);
+        let data: Vec<u8> = (0..hex.len() / 2).map(|i| u8::from_str_radix(&hex[2 * i..2 * i + 2], 16).unwrap()).collect();
+        let mut i = 0;
+        let mut state = BASE_STATE;
+        let mut id = PROTO_SMACK.search_next(&mut state, &data, &mut i);
+        if id == NO_MATCH && datagram {
+            id = PROTO_SMACK.search_next_end(&mut state);
+        }
+        if id == NO_MATCH {
+            println!("VERIF_C10_REAL=none");
+        } else {
+            println!("VERIF_C10_REAL={}", id);
+        }
+    }
+}
